@@ -276,7 +276,8 @@ func (r *checkRun) execute() int {
 	var violationLines []string
 	var unconfirmed []string
 	seenViol := map[string]bool{}
-	for _, c := range cands {
+	// schedule-dependent counterexamples are confirmed by stress; one reproducing candidate per (harness, label, kf) suffices
+	confirm := func(c *candidate) (bool, string) {
 		nr, have := native[c.caseID]
 		confirmed := false
 		detail := ""
@@ -304,6 +305,21 @@ func (r *checkRun) execute() int {
 					detail = "native panic: " + nr.Panic
 				}
 			}
+		}
+		return confirmed, detail
+	}
+	gkey := func(c *candidate) string { return c.h.fn.Name() + "/" + c.v.Label + "/" + c.v.KF }
+	groupConfirmed := map[string]bool{}
+	for _, c := range cands {
+		if ok, _ := confirm(c); ok && c.path.SchedPoints > 0 {
+			groupConfirmed[gkey(c)] = true
+		}
+	}
+	for _, c := range cands {
+		nr := native[c.caseID]
+		confirmed, detail := confirm(c)
+		if !confirmed && c.path.SchedPoints > 0 && groupConfirmed[gkey(c)] {
+			continue // another schedule of the same counterexample reproduced; this one did not show under stress
 		}
 		if c.v.KF != "" {
 			kf, listed := known[c.v.KF]
